@@ -329,6 +329,79 @@ fn sweep_all_rates(lo_exp: i32, threads: u32) -> (u64, Vec<u32>) {
     (total, bad)
 }
 
+/// Light-weight stand-ins for the decision sweep (no allocation per call).
+struct OneDraw(u32, u32);
+impl RngCore for OneDraw {
+    fn next_u32(&mut self) -> u32 { self.1 += 1; self.0 }
+    fn next_u64(&mut self) -> u64 { self.1 += 100; 0 }
+    fn fill_bytes(&mut self, dest: &mut [u8]) { self.1 += 100; for b in dest { *b = 0; } }
+}
+struct LastRate<'a>(&'a std::cell::Cell<(Option<u32>, u32)>);
+impl Format for LastRate<'_> {
+    fn format(&mut self, _e: &impl Entry, _o: &mut impl io::Write) -> Result<(), IoStreamError> {
+        let (r, n) = self.0.get();
+        self.0.set((r, n + 100));
+        Ok(())
+    }
+}
+impl SampledFormat for LastRate<'_> {
+    fn format_with_sample_rate(&mut self, _e: &impl Entry, _o: &mut impl io::Write, rate: f32) -> Result<(), IoStreamError> {
+        let (_, n) = self.0.get();
+        self.0.set((Some(rate.to_bits()), n + 1));
+        Ok(())
+    }
+}
+/// does the 24-bit draw k (value k * 2^-24) satisfy k * 2^-24 <= rate, by integer arithmetic
+fn emits_exact(rate: f32, k: u32) -> bool {
+    let bits = rate.to_bits();
+    let be = ((bits >> 23) & 0xff) as i32;
+    let (m, e) = if be == 0 { ((bits & 0x7f_ffff) as u128, -149) } else { (((bits & 0x7f_ffff) | 0x80_0000) as u128, be - 150) };
+    let sh = e + 24; // k <= m * 2^sh
+    if sh >= 0 { (k as u128) <= m << sh.min(64) } else if -sh >= 100 { k == 0 } else { (k as u128) << (-sh) <= m }
+}
+/// Every positive f32 rate up to 1.0, draws at floor(rate * 2^24) + {-1, 0, 1}: the real FixedFractionSample decision
+/// against integer arithmetic. Returns (decisions made, failing (rate bits, u32) pairs).
+fn sweep_all_decisions(threads: u32) -> (u64, Vec<(u32, u32)>) {
+    let first = 1u64;
+    let last = 1.0f32.to_bits() as u64;
+    let total = last - first + 1;
+    let chunk = (total + threads as u64 - 1) / threads as u64;
+    let mut bad = vec![];
+    let mut n = 0u64;
+    std::thread::scope(|sc| {
+        let hs: Vec<_> = (0..threads).map(|t| {
+            sc.spawn(move || {
+                let lo = first + t as u64 * chunk;
+                let hi = (lo + chunk).min(last + 1);
+                let mut bad = vec![];
+                let mut n = 0u64;
+                let e = ObsEntry { metrics: vec![], group: vec![] };
+                for b in lo..hi {
+                    let rate = f32::from_bits(b as u32);
+                    let t0 = ((rate as f64) * 16777216.0).floor() as i64;
+                    for d in [-1i64, 0, 1] {
+                        let k = (t0 + d).clamp(0, (1 << 24) - 1) as u32;
+                        let u = k << 8 | 0xa5;
+                        let cell = std::cell::Cell::new((None, 0u32));
+                        let mut s = FixedFractionSample::with_rng(LastRate(&cell), rate, OneDraw(u, 0));
+                        let ok = s.format(&e, &mut io::sink()).is_ok();
+                        let f = cell.get();
+                        let expect = emits_exact(rate, k);
+                        let got = f.0 == Some(rate.to_bits());
+                        if !ok || expect != got || (f.0.is_some() && !got) || f.1 != expect as u32 {
+                            if bad.len() < 10 { bad.push((b as u32, u)); }
+                        }
+                        n += 1;
+                    }
+                }
+                (n, bad)
+            })
+        }).collect();
+        for h in hs { let (c, b) = h.join().unwrap(); n += c; bad.extend(b); }
+    });
+    (n, bad)
+}
+
 // ------------------------------------------------------------------------------------------ congressional histories
 type Group = Vec<(u64, u64)>;
 fn group_strings(g: &Group) -> Vec<(String, String)> {
@@ -569,6 +642,17 @@ pub fn run(ctx: &Ctx) {
         outd.notes.push(format!("exhaustive sweep of all {total} f32 rates in [2^{lo}, 1]: rate_to_n_alpha of the implementation equals (floor(inv), floor(inv)+1-inv) for inv = 1/rate correctly rounded by integer arithmetic ({} mismatches, {:.1} s)", bad.len(), t0.elapsed().as_secs_f64()));
         for b in bad {
             outd.fail("rate_to_n_alpha differs from the exact split of the correctly rounded inverse rate".into(), &sx::tag(2, vec![sx::n(b)]));
+        }
+    }
+
+    // ---- every positive f32 rate up to 1.0, the real decision at the three draws around its threshold
+    {
+        let t0 = std::time::Instant::now();
+        let (n, bad) = sweep_all_decisions(8);
+        outd.add("sweep_decisions_every_f32_rate", n);
+        outd.notes.push(format!("exhaustive decision sweep: all {} positive f32 rates up to 1.0 (subnormals included) x the three 24-bit draws around the threshold, {n} real FixedFractionSample::format calls against integer arithmetic ({} mismatches, {:.1} s)", n / 3, bad.len(), t0.elapsed().as_secs_f64()));
+        for (b, u) in bad {
+            outd.fail("FixedFractionSample decision differs from `draw <= rate` (or hands on another rate)".into(), &sx::tag(0, vec![sx::n(b), sx::n(u)]));
         }
     }
 
